@@ -10,7 +10,7 @@ EXPLANATION = (
     'which produces its Ok value only from the KeyValueResponse::K arm; R17.b every field of the operation comes from the like-named '
     'parameter through at most Into::into, every component returned by unwrap_K comes from the matched response field through at most '
     'the Value -> Option conversion, and the shell\'s error is returned (a clone is tabled); R17.c the two Value conversions map '
-    'None <-> Value::None and Some(b) <-> Value::Bytes(b) with b moved and no call. Bytes across the bridge are C10; R17.f shares its codec rules (no byte limit, one options value, fresh output buffer), since a limit would reject large values only on the bridge path.')
+    'None <-> Value::None and Some(b) <-> Value::Bytes(b) with b moved and no call. Bytes across the bridge are C10; R17.f shares its codec rules (no byte limit, one options value, fresh output buffer), since a limit would reject large values only on the bridge path; R17.g shares the wire-type rules of C10 restricted to the crux_kv types (only wire-neutral serde attributes, both directions derived).')
 
 OPS = [('Get', 'get', 'unwrap_get', {'key': 'key'}, {'value'}),
        ('Set', 'set', 'unwrap_set', {'key': 'key', 'value': 'value'}, {'previous'}),
@@ -215,4 +215,12 @@ def check(ctx, rep):
     else:
         _c10.check_codec(ctx, rep, rid='R17.f')
         _c10.check_output_buffers(rep, 'R17.f', _core)
+    # R17.g: what crosses the bridge for a key-value operation is the derived serde encoding of its types, nothing conditional: every serde
+    # attribute on the crux_kv wire types is in the neutrality table of C10 (no skip_serializing_if / default, which drop a field for
+    # some values only — an empty value — and break the serialised path alone) (shared with C10 R10.a-c, restricted to crux_kv)
+    rep.rule('R17.g', 'the crux_kv wire types carry only wire-neutral serde attributes and derive both directions', floor=5)
+    if ctx.crate('controls', 'crux_verif_controls') is None:
+        rep.missing('R17.g', 'probe crate facts (controls configuration)')
+    else:
+        _c10.check_wire_types(ctx, _c10.RuleProxy(rep, 'R17.g', lambda key: 'crux_kv::' in key))
     rep.assume('a response of another kind than the operation\'s is a shell protocol error (unwrap_K panics, documented)')
